@@ -42,6 +42,34 @@ class Builtins:
         from .arith import v_muldiv
         return v_muldiv(self.ex.C, 'muldiv', args, kw, st, fr)
 
+    def b_actionlog_append(self, bound, args, kw, st, fr):
+        """record['actions'].append(A): the ghost log grows by one action carrying A's tag and message; the action counts
+        as complete when it carries the state snapshot, the totals, the quota and the rule's own entries"""
+        from .models import ghost_get
+        C = self.ex.C
+        A = args[0]
+        if not (isinstance(A, SRef) and A.cname == 'dict'):
+            raise Unsupported('appending %r to the action list' % (A,))
+        AT = C.AnyT
+        tag, msg = C.dict_val(st, A, SStr(lit='tag')).t, C.dict_val(st, A, SStr(lit='msg')).t
+        ok = z3.And(C.dict_has(st, A, SStr(lit='tag')), C.dict_has(st, A, SStr(lit='msg')), AT.is_s(tag), AT.is_s(msg))
+        if not self.ex.sat(st, z3.Not(ok)):
+            pass
+        n = ghost_get(st, 'nlog').t
+        st.ghost['g:nlog'] = SInt(n + 1)
+        st.ghost['g:lasttag'] = SStr(t=z3.If(ok, AT.sv(tag), fresh_int('notag')))
+        st.ghost['g:lastmsg'] = SStr(t=z3.If(ok, AT.sv(msg), fresh_int('nomsg')))
+        islog = z3.And(ok, AT.sv(tag) == SStr(lit='log').t)
+        full = z3.And(*[C.dict_has(st, A, SStr(lit=k)) for k in ('round', 'cstate', 'votes', 'quota')])
+        hooked = ghost_get(st, 'hooked').t == A.t
+        st.ghost['g:lastcomplete'] = SInt(z3.If(z3.And(ok, C.dict_has(st, A, SStr(lit='round')),
+                                                       z3.Or(islog, z3.And(full, hooked))), 1, 0))
+        return self.ex.ok(NONE, st)
+
+    def b_rounds_append(self, bound, args, kw, st, fr):
+        "E.rounds.append(C.copy()): the saved rounds are modelled by the snapshot functions (A-rounds); nothing else changes"
+        return self.ex.ok(NONE, st)
+
     def b_V_report(self, args, kw, st, fr):
         return self.ex.ok(SStr(), st)
 
@@ -279,6 +307,14 @@ class Builtins:
         v = SSpecial('dictsnap')
         v.has, v.val = z3.Select(has, d.t), z3.Select(val, d.t)
         return self.ex.ok(v, st)
+
+    def b_spec_dhas_in(self, args, kw, st, fr):
+        snap, k = args
+        return self.ex.ok(SBool(z3.Select(snap.has, self.ex.C.to_any(k).t)), st)
+
+    def b_spec_dval_in(self, args, kw, st, fr):
+        snap, k = args
+        return self.ex.ok(SAny(z3.Select(snap.val, self.ex.C.to_any(k).t)), st)
 
     def b_spec_dict_same(self, args, kw, st, fr):
         d, snap = args
